@@ -3,7 +3,11 @@ and every benign refactoring (benign/<id>/patch.diff).
 usage: rerun_seeded.py [id-substring ...]   -> prints one line per patch; exit 1 if any expectation fails"""
 import json, os, subprocess, sys, time
 HERE = os.path.dirname(os.path.dirname(os.path.abspath(__file__)))
-args = sys.argv[1:]
+args = [a for a in sys.argv[1:] if not a.startswith('--')]
+seeds = [None]
+for a in sys.argv[1:]:
+    if a.startswith('--seeds='):
+        seeds = a.split('=')[1].split(',')
 bad = 0
 rows = []
 def run(kind, name, patch, checks, expect):
@@ -15,13 +19,17 @@ def run(kind, name, patch, checks, expect):
         ap = subprocess.run(['git', 'apply', patch], cwd=wt, capture_output=True, text=True)
         if ap.returncode != 0:
             print(kind, name, 'PATCH-DOES-NOT-APPLY', ap.stderr[:200]); bad += 1; return
-        for c in checks:
+        for c, sd in [(c, sd) for c in checks for sd in seeds]:
             t = time.time()
+            env = dict(os.environ, VERIF_REPO=wt)
+            if sd is not None:
+                env['VERIF_SEED'] = sd
+                c_label = f'{c}@seed{sd}'
             pr = subprocess.run([os.path.join(HERE, 'check'), c, '--no-evidence', '--no-selftest'],
-                                env=dict(os.environ, VERIF_REPO=wt), capture_output=True, text=True)
+                                env=env, capture_output=True, text=True)
             ok = (pr.returncode == expect)
             first = [l for l in pr.stdout.splitlines() if l.startswith(('oracle ', 'HARNESS'))][:1]
-            print(kind, name, c, 'exit', pr.returncode, 'OK' if ok else 'UNEXPECTED', f'{time.time()-t:.0f}s', (first[0][:160] if first else ''), flush=True)
+            print(kind, name, c, 'seed', sd, 'exit', pr.returncode, 'OK' if ok else 'UNEXPECTED', f'{time.time()-t:.0f}s', (first[0][:160] if first else ''), flush=True)
             rows.append([kind, name, c, pr.returncode, ok])
             bad += (not ok)
     finally:
